@@ -227,13 +227,13 @@ func (vm *progVM) step() *progStep {
 				}
 			}
 		}
-		if a.Class == 1 && b.Class == 1 {
+		if a.Class == 1 && b.Class == 1 && cc.Class != 0 { // (with a zero addend FMA is Mul, which saturates correctly: not part of D15)
 			ple := leadOf(a) + leadOf(b) // the product's lead exponent is ple or ple-1
 			switch {
 			case ple-1 > oracle.MaxExp || ple < oracle.MinExp:
 				st.kf = "fma_product_exponent_out_of_range"
 			case ple > oracle.MaxExp || ple-1 < oracle.MinExp:
-				pk := &opCase{op: "FMA", x: a.Val(), y: b.Val()}
+				pk := &opCase{op: "FMA", x: a.Val(), y: b.Val(), u: cc.Val()}
 				if fmaProductOutOfRange(pk) {
 					st.kf = "fma_product_exponent_out_of_range"
 				}
